@@ -152,6 +152,10 @@ def parsePagedOp : List String → Option Paged.Op
       match ← parseLists rest with
       | [is, vs] => some (.batchSet is vs)
       | _ => none
+  | "bsx" :: rest => do
+      match ← parseLists rest with
+      | [is, vs] => some (.batchSet is vs)
+      | _ => none
   | ["dump"] => some .dump
   | _ => none
 
@@ -256,6 +260,7 @@ def syncmapSpec : Suite where
 
 def parseBucketOp : List String → Option Bucket.Op
   | ["get", k] => do some (.get (← int? k))
+  | ["getraw", k] => do some (.get (← int? k))
   | ["set", k, v] => do some (.set (← int? k) (← int? v))
   | ["del", k] => do some (.del (← int? k))
   | ["len"] => some .len
@@ -380,7 +385,9 @@ def bitset : Suite where
             | none => (r, "bad-op")
         | none => (r, "bad-op")
     | ["equal", n, m] => rd2 n m BitSet.equal
+    | ["equalx", n, m] => rd2 n m BitSet.equal
     | ["in", n, m] => rd2 n m BitSet.isIn
+    | ["inx", n, m] => rd2 n m BitSet.isIn
     | ["notin", n, m] => rd2 n m BitSet.notIn
     | _ => (r, "bad-op")
 
@@ -426,7 +433,9 @@ def bitsetSpec : Suite where
             | none => (r, "bad-op")
         | none => (r, "bad-op")
     | ["equal", n, m] => rd2 n m (fun x y => x == y)
+    | ["equalx", n, m] => rd2 n m (fun x y => x == y)
     | ["in", n, m] => rd2 n m (fun x y => y.all (fun p => x.contains p))
+    | ["inx", n, m] => rd2 n m (fun x y => y.all (fun p => x.contains p))
     | ["notin", n, m] => rd2 n m (fun x y => y.all (fun p => !x.contains p))
     | _ => (r, "bad-op")
 
